@@ -1001,6 +1001,12 @@ def copy_root(body, operand, limit=40):
             defs.setdefault(t["d"][0], []).append(None)
     place = list(operand[1])
     for _ in range(limit):
+        if len(place) == 2 and place[1] == "*":
+            # `*r` where `r = &x` (a match-guard binding is read through a reference to the scrutinee): the value of `x`
+            rd = defs.get(place[0], [])
+            if len(rd) == 1 and rd[0] is not None and rd[0]["k"] == "ref" and not rd[0].get("mut"):
+                place = list(rd[0]["p"])
+                continue
         if len(place) > 1:
             return place
         ds = defs.get(place[0], [])
